@@ -5,13 +5,13 @@
  "enforce": ["libcperciva_getopt"],
  "expect_loops": ["reset"],
  "annotate": ["util/getopt.c"],
- "matrix": {"GO_CASE": [0, 1, 2]},
+ "matrix": {"GO_CASE": [0, 1, 2, 3]},
  "defines": ["VERIF_HALLOC", "GO_NOPTS_MAX=4", "GO_STRMAX=6", "GO_ARGC_MAX=2", "VERIF_STRMAX=8", "GSPEC_NAMEMAX=8"],
  "thorough_defines": ["GO_STRMAX=24", "VERIF_STRMAX=26"],
  "models": ["models/libc_string.c", "models/libc_misc.c", "models/getopt_stdio.c"],
  "timeout": 300,
  "assumptions": ["the 'fresh process' state is written down from the initialisers at the top of util/getopt.c (optarg NULL, optind 1, optreset 1, getopt_initialized 0, cmdname NULL, opts NULL, packedopts NULL, atexit_registered 0)",
-                 "the 'dirty' state before a reset is arbitrary: any table (or none), any optind, any pack cursor, any opt_found, initialised or not",
+                 "the 'dirty' state before a reset is arbitrary: any table (or none), any optind, any pack cursor, any opt_found, initialised or not; optreset == 1 in that instance, any non-zero value in the instance with getopt_initialized == 0 (the code only tests optreset for zero)",
                  "argv object <= 2 pointers (only argv[0] is read on this path), argv[0] <= GO_STRMAX characters (6 quick / 24 thorough); reset() is inlined, its loop closed by a loop contract",
                  "atexit: models/libc_misc.c"]
 }
@@ -20,7 +20,12 @@
 #include "util/getopt.c"
 #include "go.h"
 
-/* GO_CASE 0: fresh process.  1: reset done, table not built yet.  2: arbitrary state + optreset (re-parse). */
+/*
+ * GO_CASE 0: fresh process.  1: reset done, table not built yet.  2: arbitrary state, optreset = 1 (re-parse).
+ * 3: as 2 with any non-zero optreset but getopt_initialized == 0.  (2 and 3 are separate only for cost: with both
+ * symbolic, symbolic execution also walks the infeasible "no reset" path through the whole step on a garbage table,
+ * 8.5 M variables.  The code tests optreset for zero/non-zero only.)
+ */
 
 /* reference: offset of the basename of s (after the last '/') */
 static size_t
@@ -71,12 +76,18 @@ h_first(void)
 	__CPROVER_assume(d_nopts <= GO_NOPTS_MAX && d_reset != 0);
 	nopts = d_nopts;
 	opts = d_hastable ? malloc(d_nopts * sizeof(struct opt)) : NULL;
-	optind = d_optind; opt_found = d_found; getopt_initialized = d_init;
+	optind = d_optind; opt_found = d_found;
 	if (d_pack && a_c > 0) {
 		__CPROVER_assume(d_pk <= a_l[0]);
 		packedopts = &a_v[0][d_pk];
 	}
+#if GO_CASE == 2
+	getopt_initialized = d_init;
+	optreset = 1;
+#else
+	getopt_initialized = 0;
 	optreset = d_reset;
+#endif
 #endif
 	cmdname0 = cmdname; opts0 = opts; found0 = opt_found;
 	const char * pk0 = packedopts;
@@ -101,6 +112,8 @@ h_first(void)
 #if GO_CASE == 2
 	VCOVER(d_hastable && d_nopts == GO_NOPTS_MAX && d_pack && d_init && d_optind == 7);
 	VCOVER(!d_hastable && !d_init);
+#elif GO_CASE == 3
+	VCOVER(d_hastable && d_pack && d_reset == -5);
 #endif
 #endif
 }
